@@ -13,125 +13,20 @@ transforms:
   unparse   ast.unparse round trip only
 """
 import ast, json, os, shutil, subprocess, sys, tempfile
+sys.path.insert(0, "/verif")
+from sa.transforms import TRANSFORMS, apply_to_package
 from concurrent.futures import ThreadPoolExecutor
 
 V = '/verif'
 
 
-class Rename(ast.NodeTransformer):
-    def visit_FunctionDef(self, node):
-        self.generic_visit(node)            # inner functions first
-        params = {a.arg for a in node.args.args + node.args.kwonlyargs + node.args.posonlyargs}
-        if node.args.vararg: params.add(node.args.vararg.arg)
-        if node.args.kwarg: params.add(node.args.kwarg.arg)
-        declared, nested_used, stores = set(), set(), set()
-
-        def walk(n, nested):
-            for ch in ast.iter_child_nodes(n):
-                inner = nested or isinstance(ch, (ast.FunctionDef, ast.AsyncFunctionDef, ast.Lambda, ast.ClassDef))
-                if isinstance(ch, (ast.Global, ast.Nonlocal)):
-                    declared.update(ch.names)
-                if isinstance(ch, ast.Name):
-                    if inner:
-                        nested_used.add(ch.id)
-                    elif isinstance(ch.ctx, (ast.Store, ast.Del)):
-                        stores.add(ch.id)
-                if isinstance(ch, ast.ExceptHandler) and ch.name and not inner:
-                    declared.add(ch.name)            # keep handler names
-                if isinstance(ch, (ast.FunctionDef, ast.AsyncFunctionDef, ast.ClassDef)) and not nested:
-                    declared.add(ch.name)
-                if isinstance(ch, (ast.Import, ast.ImportFrom)) and not inner:
-                    for al in ch.names:
-                        declared.add((al.asname or al.name).split('.')[0])
-                walk(ch, inner)
-        for st in node.body:
-            walk(ast.Module(body=[st], type_ignores=[]), False)
-        targets = {s for s in stores if s not in params and s not in declared and s not in nested_used
-                   and not s.startswith('__')}
-
-        class R(ast.NodeTransformer):
-            def visit_FunctionDef(self, n): return n
-            visit_AsyncFunctionDef = visit_FunctionDef
-            def visit_Lambda(self, n): return n
-            def visit_ClassDef(self, n): return n
-            def visit_Name(self, n):
-                if n.id in targets:
-                    n.id = n.id + '_rn'
-                return n
-        r = R()
-        node.body = [r.visit(st) for st in node.body]
-        return node
-    visit_AsyncFunctionDef = visit_FunctionDef
-
-
-_FLIP = {ast.Eq: ast.Eq, ast.NotEq: ast.NotEq, ast.Lt: ast.Gt, ast.Gt: ast.Lt, ast.LtE: ast.GtE, ast.GtE: ast.LtE}
-
-
-def _pure(e):
-    if isinstance(e, (ast.Name, ast.Constant)):
-        return True
-    if isinstance(e, ast.Attribute):
-        return _pure(e.value)
-    if isinstance(e, ast.UnaryOp):
-        return _pure(e.operand)
-    if isinstance(e, ast.Call) and isinstance(e.func, ast.Name) and e.func.id == 'len' and len(e.args) == 1:
-        return _pure(e.args[0])
-    return False
-
-
-class SwapCmp(ast.NodeTransformer):
-    def visit_Compare(self, node):
-        self.generic_visit(node)
-        if len(node.ops) == 1 and type(node.ops[0]) in _FLIP and _pure(node.left) and _pure(node.comparators[0]):
-            # keep numpy semantics safe: only when at least one side is a constant or both are plain names
-            return ast.Compare(left=node.comparators[0], ops=[_FLIP[type(node.ops[0])]()], comparators=[node.left])
-        return node
-
-
-class Pad(ast.NodeTransformer):
-    def visit_FunctionDef(self, node):
-        self.generic_visit(node)
-        body = []
-        for i, st in enumerate(node.body):
-            if not (i == 0 and isinstance(st, ast.Expr) and isinstance(st.value, ast.Constant)):
-                body.append(ast.Pass())
-            body.append(st)
-        node.body = body
-        return node
-    visit_AsyncFunctionDef = visit_FunctionDef
-
-
-class IfNot(ast.NodeTransformer):
-    def visit_If(self, node):
-        self.generic_visit(node)
-        if node.orelse and not (len(node.orelse) == 1 and isinstance(node.orelse[0], ast.If)):
-            return ast.If(test=ast.UnaryOp(op=ast.Not(), operand=node.test), body=node.orelse, orelse=node.body)
-        return node
-
-
-TRANSFORMS = {'rename': Rename, 'swapcmp': SwapCmp, 'pad': Pad, 'ifnot': IfNot, 'unparse': None}
-
-
 def main():
     name = sys.argv[1]
-    tr = TRANSFORMS[name]
     scratch = tempfile.mkdtemp(prefix=f'benign_{name}.')
     ev = tempfile.mkdtemp(prefix='benign_ev.')
     try:
         subprocess.run(f'git -C /repo archive HEAD | tar -x -C {scratch}', shell=True, check=True)
-        n = 0
-        for root, _, files in os.walk(os.path.join(scratch, 'adsg_core')):
-            if '/tests' in root:
-                continue
-            for f in files:
-                if f.endswith('.py'):
-                    p = os.path.join(root, f)
-                    tree = ast.parse(open(p).read())
-                    if tr is not None:
-                        tree = tr().visit(tree)
-                    ast.fix_missing_locations(tree)
-                    open(p, 'w').write(ast.unparse(tree) + '\n')
-                    n += 1
+        n = apply_to_package(os.path.join(scratch, 'adsg_core'), name)
         print(f'{name}: {n} modules transformed in {scratch}')
         if '--test' in sys.argv:
             env = dict(os.environ, PYTHONPATH=scratch, XDG_CACHE_HOME=tempfile.mkdtemp())
